@@ -364,13 +364,15 @@ func checkC19(c *Check) {
 			den, amt := false, false
 			for _, a := range factsAt(call.Block()) {
 				x, y := Sym(a.X), Sym(a.Y)
-				if a.Op == "eq" && strings.HasSuffix(x, "DeploymentMinDeposit.Denom") && y == "*p:msg.Deposit.Denom" {
+				if a.Op == "eq" && strings.HasSuffix(x, "DeploymentMinDeposit.Denom") && strings.Contains(x, "GetParams(") && y == "*p:msg.Deposit.Denom" {
 					den = true
 				}
 				if a.Op == "false" {
 					if cv, _ := callOf(a.X); cv != nil && len(cv.Call.Args) == 2 {
 						x0, x1 := Sym(cv.Call.Args[0]), Sym(cv.Call.Args[1])
-						isMin := func(s string) bool { return strings.HasSuffix(s, "DeploymentMinDeposit.Amount") }
+						isMin := func(s string) bool {
+							return strings.HasSuffix(s, "DeploymentMinDeposit.Amount") && strings.Contains(s, "GetParams(")
+						}
 						isDep := func(s string) bool { return s == "*p:msg.Deposit.Amount" }
 						if (calleeMethod(cv) == "GT" && isMin(x0) && isDep(x1)) || (calleeMethod(cv) == "LT" && isDep(x0) && isMin(x1)) {
 							amt = true
